@@ -97,6 +97,14 @@ void state_touch(struct snapraid_state* state)
 					/* LCOV_EXCL_STOP */
 				}
 
+				/* if the file in the disk has already a sub-second timestamp */
+				/* it was changed after the content file was written, */
+				/* and there is nothing to set, the next sync will process it */
+				if (STAT_NSEC(&st) != 0 && STAT_NSEC(&st) != STAT_NSEC_INVALID) {
+					close(f);
+					continue;
+				}
+
 				/* set the tweaked modification time, with new nano seconds */
 				ret = fmtime(f, st.st_mtime, nsec);
 				if (ret != 0) {
